@@ -95,6 +95,7 @@ const std::vector<SwitchEv>& trace();
 void clear_faults();
 void add_fault(const ExcFault& f);
 const std::vector<ExcFault>& faults();
+void throw_fault_for_test(int exc_type);   // throws what a fired fault of that type throws (oracles ask the simulator for type and text)
 
 // phase callbacks, invoked on the thread that enters/leaves the function.
 // in_region = called by a team member of an active multi-member region.
